@@ -17,7 +17,7 @@ ASSUMPTIONS = ["a tuple of exactly two sequences is not used (documented legacy 
 EXHAUSTIVE = {"quick": ["4 engines x 9 containers x {default,hamming} on fixed witnesses", "all invalid-argument classes x 4 engines"],
               "thorough": ["4 engines x 9 containers x 9 containers(seqs2) x {default,hamming}", "all invalid-argument classes x 4 engines"]}
 REQUIRE = {"format_cases": 40, "container_cases": 100, "container_series_nondefault_index": 40, "invalid_cases": 60,
-           "matrix_cells_checked": 1000, "cross_shape_nonsquare": 10, "d0_triplets_in_matrix_cases": 5}
+           "matrix_cells_checked": 1000, "cross_shape_nonsquare": 10, "d0_triplets_in_matrix_cases": 5, "asymmetric_triplet_sets": 3}
 SHARDS = {"quick": 6, "thorough": 16}
 
 
@@ -26,6 +26,10 @@ def self_test():
 
 
 def _expected(seqs, seqs2, k, mode):
+    import collections
+    if mode == "custom":          # callable custom distance 2*lev, infinite radius
+        base = O.neigh_self(seqs, k) if seqs2 is None else O.neigh_cross(seqs2, seqs, k)
+        return collections.Counter({(i, j, 2 * d): c for (i, j, d), c in base.items()})
     m = "lev" if mode == "lev" else "ham"
     if seqs2 is None:
         return O.neigh_self(seqs, k, m)
@@ -36,6 +40,9 @@ def _kw(k, mode, seqs2=None, out=None):
     kw = {"max_edits": k}
     if mode == "hamming":
         kw["custom_distance"] = "hamming"
+    if mode == "custom":
+        from vmon import dists
+        kw["custom_distance"] = dists.lev2
     if seqs2 is not None:
         kw["seqs2"] = seqs2
     if out:
@@ -43,25 +50,45 @@ def _kw(k, mode, seqs2=None, out=None):
     return kw
 
 
-def k_formats(ctx, engine, seqs, k, mode, seqs2=None):
+def k_formats(ctx, engine, seqs, k, mode, seqs2=None, max_returns=None):
     import numpy as np
     import scipy.sparse as sp
     fn = S.engine(engine)
     exp = _expected(seqs, seqs2, k, mode)
     ctx.count("format_cases")
     if exp:
-        ctx.nontriv(["F", engine, seqs, seqs2, k, mode])
-    ctx.sample("formats", {"engine": engine, "seqs": seqs[:8], "seqs2": seqs2 and seqs2[:8], "k": k, "mode": mode})
-    t = ctx.call(fn, list(seqs), **_kw(k, mode, seqs2 and list(seqs2), "triplets"))
-    if not S.expect_triplets(ctx, t, exp, engine, f"formats-triplets-{mode}"):
-        return
-    T = O.canon_triplets(t.value)
+        ctx.nontriv(["F", engine, seqs, seqs2, k, mode, max_returns])
+    ctx.sample("formats" + (":max_returns" if max_returns else ""), {"engine": engine, "seqs": seqs[:8], "seqs2": seqs2 and seqs2[:8], "k": k, "mode": mode,
+                                                                   "max_returns": max_returns})
+    if max_returns:
+        # truncated neighbour lists are not symmetric: the matrix orientation becomes observable in self mode.
+        # The triplets themselves are C11's subject; here only "the matrix encodes exactly the triplets" is decided.
+        _real_kw = _kw
+
+        def _kw_mr(k_, mode_, seqs2_=None, out_=None):
+            d = _real_kw(k_, mode_, seqs2_, out_)
+            d["max_returns"] = max_returns
+            return d
+        kwf = _kw_mr
+        t = ctx.call(fn, list(seqs), **kwf(k, mode, None, "triplets"))
+        if not t.ok:
+            ctx.violation(f"{engine}:formats-max_returns:raised", "raised", t.describe(), None)
+            return
+        T = O.canon_triplets(t.value)
+        if any((j, i, d) not in T for (i, j, d) in T):
+            ctx.count("asymmetric_triplet_sets")
+    else:
+        kwf = _kw
+        t = ctx.call(fn, list(seqs), **_kw(k, mode, seqs2 and list(seqs2), "triplets"))
+        if not S.expect_triplets(ctx, t, exp, engine, f"formats-triplets-{mode}"):
+            return
+        T = O.canon_triplets(t.value)
     shape = (len(seqs), len(seqs) if seqs2 is None else len(seqs2))
     if shape[0] != shape[1]:
         ctx.count("cross_shape_nonsquare")
     if any(d == 0 for (_, _, d) in T):
         ctx.count("d0_triplets_in_matrix_cases")
-    c = ctx.call(fn, list(seqs), **_kw(k, mode, seqs2 and list(seqs2), "coo_matrix"))
+    c = ctx.call(fn, list(seqs), **kwf(k, mode, seqs2 and list(seqs2), "coo_matrix"))
     key = f"{engine}:coo_matrix:{'cross' if seqs2 is not None else 'self'}"
     dense_from_coo = None
     if not c.ok:
@@ -86,7 +113,7 @@ def k_formats(ctx, engine, seqs, k, mode, seqs2=None):
                 bad = np.argwhere(np.asarray(dense_from_coo, dtype=float) != want)[:5].tolist()
                 ctx.violation(key + ":cells", f"matrix does not hold d at [r,q] / 0 elsewhere; first differing cells {bad}",
                               dense_from_coo, want)
-    a = ctx.call(fn, list(seqs), **_kw(k, mode, seqs2 and list(seqs2), "ndarray"))
+    a = ctx.call(fn, list(seqs), **kwf(k, mode, seqs2 and list(seqs2), "ndarray"))
     key = f"{engine}:ndarray:{'cross' if seqs2 is not None else 'self'}"
     if not a.ok:
         ctx.violation(key + ":raised", "ndarray output raised", a.describe(), None)
@@ -157,6 +184,15 @@ W2 = ["CAAK", "CAAA", "CDD", "CADAA", "CAAA"]
 def generate(tier, seed):
     rng = random.Random(10000 + seed)
     thorough = tier == "thorough"
+    for mode in ("lev", "hamming", "custom"):
+        for m in (1, 2):
+            yield "formats", {"engine": "kdtree", "seqs": W1 + ["CAAD", "CADD", "CAKA"], "k": 2, "mode": mode, "max_returns": m}, True
+    for eng in ENGINES:
+        for c in G.CONTAINERS:
+            yield "container", {"engine": eng, "seqs": W1, "k": 1, "mode": "custom", "container": c}, True
+    for eng in CROSS_ENGINES:
+        for c in ("series_shifted", "series_string", "ndarray_U"):
+            yield "container", {"engine": eng, "seqs": W1, "seqs2": W2, "k": 1, "mode": "custom", "container": c, "container2": c}, True
     for eng in ENGINES:
         for mode in ("lev", "hamming"):
             yield "formats", {"engine": eng, "seqs": W1, "k": 1, "mode": mode}, True
@@ -187,7 +223,7 @@ def generate(tier, seed):
         if len(seqs) == 2:
             seqs.append(rng.choice(pool))
         k = rng.choice([1, 1, 2])
-        mode = rng.choice(["lev", "lev", "hamming"])
+        mode = rng.choice(["lev", "lev", "hamming", "custom"])
         cross = i % 3 == 0
         eng = rng.choice(CROSS_ENGINES if cross else ENGINES)
         seqs2 = None
@@ -198,7 +234,10 @@ def generate(tier, seed):
         if eng == "hash_based" and k == 2 and max(len(s) for s in seqs) > 5:
             k = 1
         if i % 2 == 0:
-            yield "formats", {"engine": eng, "seqs": seqs, "seqs2": seqs2, "k": k, "mode": mode}, i < 60
+            p = {"engine": eng, "seqs": seqs, "seqs2": seqs2, "k": k, "mode": mode}
+            if eng == "kdtree" and i % 4 == 0:
+                p["max_returns"] = rng.choice([1, 2, 3])
+            yield "formats", p, i < 60
         else:
             c = rng.choice(G.CONTAINERS)
             p = {"engine": eng, "seqs": seqs, "k": k, "mode": mode, "container": c}
